@@ -1,11 +1,19 @@
 """Single source for MANIFEST.json (tools/mkmanifest.py)."""
 ENGINES = [
+    {"name": "bfs-registers", "path": "vf/props/c11.py", "serves_properties": ["C11"],
+     "kind_free_text": "explicit-state breadth-first search over operation histories on real Registers objects (history replay, canonical raw-state dedup), dict-of-ints reference model"},
     {"name": "sweep", "path": "vf/props/c20.py", "serves_properties": ["C20"],
      "kind_free_text": "exhaustive loops over small string/integer domains executed on the real helpers, own recogniser as oracle"},
 ]
-FIX_COMMITS = ["e173e89", "69c9427", "3f819f3", "2ac9b91", "83ab516"]
+FIX_COMMITS = ["e173e89", "69c9427", "3f819f3", "2ac9b91", "83ab516", "2982182", "b4341d3", "f68c828", "1e56e39"]
 NOT_APPLICABLE = {}
 CHECKS = {
+    "C11": {
+        "engine": "bfs-registers", "level": "model_checking", "design_ref": "DESIGN.md §12",
+        "technique": "explicit-state model checking of the implementation: BFS over all operation sequences up to depth 3 (quick) / 4-5 (thorough) per generated register layout, state = canonical raw register values, step-wise comparison with a reference model",
+        "text": "For 19 generated layouts (widths 8..512, field partitions, enums, config processor, groups with normal/reversed sub-register order, reversed byte order, alternative widths, both base endiannesses) every sequence of writes/resets/round trips/queries up to the depth bound over a boundary-value alphabet is executed on real objects and compared step by step with a dict-of-ints model; for most layouts the reachable state space closes (fixpoint) below the bound, which makes the result exhaustive for that alphabet.",
+        "note": "Trusted: the reference model in vf/props/c11.py; layouts are generated (not every database register file); values outside the alphabet and bit-fields not covering their register are not explored.",
+    },
     "C20": {
         "engine": "sweep", "level": "exploration", "design_ref": "DESIGN.md §21",
         "technique": "bounded exhaustive enumeration of inputs (all strings <= 5/6 symbols over a 17-symbol alphabet, small integer cubes) executed on the implementation, compared with an independent reference",
